@@ -4,14 +4,14 @@
 EXTENDS UniLife, TraceLib
 
 VARIABLE l
-tvars == <<l, phase, feats, vw, nfunc>>
+tvars == <<l, s>>
 
 T == TraceLog
 Ev == T[l]
 IsEv(e) == l <= Len(T) /\ Ev.e = e /\ l' = l + 1
 
 TInit == LInit /\ l = 1 /\ InitProgress
-TReset == IsEv("Reset") /\ phase' = "none" /\ feats' = [avx |-> FALSE] /\ vw' = -1 /\ nfunc' = 0
+TReset == IsEv("Reset") /\ s' = S0
 TNext == \/ TReset
          \/ IsEv("New") /\ New(Ev)
          \/ IsEv("InitVecWidth") /\ InitVecWidth(Ev)
